@@ -208,32 +208,37 @@ deriving DecidableEq, Repr
 def utf8Handler (s : Utf8) : Option Nat → HRes Utf8
   -- 1. end-of-queue and bytes needed is not 0: set bytes needed to 0, return error
   -- 2. end-of-queue: finished
-  | none => if s.bytesNeeded ≠ 0 then ⟨{ s with bytesNeeded := 0 }, [], .error (s.bytesSeen + 1) 0⟩ else ⟨s, [], .finished⟩
+  | none =>
+    if s.bytesNeeded ≠ 0 then ⟨⟨s.codePoint, s.bytesSeen, 0, s.lower, s.upper⟩, [], .error (s.bytesSeen + 1) 0⟩
+    else ⟨s, [], .finished⟩
   | some byte =>
     -- 3. bytes needed is 0: based on byte
     if s.bytesNeeded = 0 then
       if byte ≤ 0x7F then ⟨s, [], .emit [byte]⟩
-      else if 0xC2 ≤ byte ∧ byte ≤ 0xDF then ⟨{ s with bytesNeeded := 1, codePoint := byte &&& 0x1F }, [], .continue⟩
+      else if 0xC2 ≤ byte ∧ byte ≤ 0xDF then
+        -- set bytes needed to 1 and code point to byte & 0x1F
+        ⟨⟨byte &&& 0x1F, s.bytesSeen, 1, s.lower, s.upper⟩, [], .continue⟩
       else if 0xE0 ≤ byte ∧ byte ≤ 0xEF then
-        let s := if byte = 0xE0 then { s with lower := 0xA0 } else s
-        let s := if byte = 0xED then { s with upper := 0x9F } else s
-        ⟨{ s with bytesNeeded := 2, codePoint := byte &&& 0xF }, [], .continue⟩
+        -- if byte is 0xE0, set lower boundary to 0xA0; if byte is 0xED, set upper boundary to 0x9F;
+        -- set bytes needed to 2 and code point to byte & 0xF
+        ⟨⟨byte &&& 0xF, s.bytesSeen, 2, if byte = 0xE0 then 0xA0 else s.lower, if byte = 0xED then 0x9F else s.upper⟩,
+          [], .continue⟩
       else if 0xF0 ≤ byte ∧ byte ≤ 0xF4 then
-        let s := if byte = 0xF0 then { s with lower := 0x90 } else s
-        let s := if byte = 0xF4 then { s with upper := 0x8F } else s
-        ⟨{ s with bytesNeeded := 3, codePoint := byte &&& 0x7 }, [], .continue⟩
+        -- if byte is 0xF0, set lower boundary to 0x90; if byte is 0xF4, set upper boundary to 0x8F;
+        -- set bytes needed to 3 and code point to byte & 0x7
+        ⟨⟨byte &&& 0x7, s.bytesSeen, 3, if byte = 0xF0 then 0x90 else s.lower, if byte = 0xF4 then 0x8F else s.upper⟩,
+          [], .continue⟩
       else ⟨s, [], .error 1 0⟩
     -- 4. byte not in lower..upper: reset everything, restore byte, return error
     else if ¬ (s.lower ≤ byte ∧ byte ≤ s.upper) then
       ⟨⟨0, 0, 0, 0x80, 0xBF⟩, [byte], .error (s.bytesSeen + 1) 0⟩
     else
-      -- 5.–7.
-      let s := { s with lower := 0x80, upper := 0xBF }
-      let s := { s with codePoint := (s.codePoint <<< 6) ||| (byte &&& 0x3F) }
-      let s := { s with bytesSeen := s.bytesSeen + 1 }
-      -- 8. not complete: continue; 9.–11. return the code point, reset
-      if s.bytesSeen ≠ s.bytesNeeded then ⟨s, [], .continue⟩
-      else ⟨{ s with codePoint := 0, bytesNeeded := 0, bytesSeen := 0 }, [], .emit [s.codePoint]⟩
+      -- 5. boundaries back to 0x80 / 0xBF  6. code point = (code point << 6) | (byte & 0x3F)  7. bytes seen + 1
+      let codePoint := (s.codePoint <<< 6) ||| (byte &&& 0x3F)
+      let bytesSeen := s.bytesSeen + 1
+      -- 8. not complete: continue; 9.–11. return the code point, reset code point, bytes needed, bytes seen
+      if bytesSeen ≠ s.bytesNeeded then ⟨⟨codePoint, bytesSeen, s.bytesNeeded, 0x80, 0xBF⟩, [], .continue⟩
+      else ⟨⟨0, 0, 0, 0x80, 0xBF⟩, [], .emit [codePoint]⟩
 
 def utf8 : Decoder := ⟨Utf8, ⟨0, 0, 0, 0x80, 0xBF⟩, utf8Handler⟩
 
